@@ -71,13 +71,49 @@ def run(ctx: Ctx):
     ctx.extra["eligible"] = n
     # effect check
     tries = [node for node in ast.walk(im.hooks.tree) if isinstance(node, ast.Try)]
-    ctx.check(not tries, "no-swallowing-try", "_hooks.py",
-              f"try/except at line(s) {[x.lineno for x in tries]} may swallow structuring errors", P_HOOKS)
+    swallowing = []
+    for tr in tries:
+        for hnd in tr.handlers:
+            has_exit_without_raise = any(isinstance(x, (ast.Return, ast.Continue, ast.Break)) for x in ast.walk(hnd)) \
+                or not any(isinstance(x, ast.Raise) for x in ast.walk(hnd))
+            if has_exit_without_raise:
+                swallowing.append(tr.lineno)
+    ctx.check(not swallowing, "no-swallowing-try", "_hooks.py",
+              f"try/except at line(s) {sorted(set(swallowing))} has a handler path that returns instead of re-raising: a "
+              "structuring error can be swallowed and the value silently repaired", P_HOOKS)
     # class-keyed hooks bypassing the generated function
-    for key, reg in im.hooks.class_hooks().items():
-        ctx.check(key == NONE or key[0] == "opaque", "no-class-hook-bypass", f"key={show(key)}",
-                  f"a structure hook is registered for {show(key)}: the generated per-class function "
-                  "(required keys, validators) is bypassed", P_HOOKS, reg.lineno)
+    # A hand-written hook registered for an attrs class / enum replaces the generated function the four
+    # obligations above rely on (A1/A3).  It is folded where possible (integer verdicts as in C12, non-member
+    # acceptance as in C13): a concrete accepted deviation is a violation; otherwise the clause is undecided.
+    from ..common import Ctx as _Ctx, AnalysisError as _AE
+    from . import c12 as _c12, c13 as _c13
+    bypass = [(k, r) for k, r in im.hooks.class_hooks().items() if not (k == NONE or k[0] in ("opaque", "prim"))]
+    if not bypass:
+        ctx.ok("class-hooks-keep-rejections", {"class_keyed_hooks": 0})
+    else:
+        sub = _Ctx("C11", ctx.tier, ctx.seed, ctx.src, quiet=True)
+        undecided = None
+        try:
+            _c12._entry_points_agree(sub)
+        except _AE as e:
+            undecided = e
+        try:
+            _c13._enum_class_hooks(sub)
+        except _AE as e:
+            undecided = undecided or e
+        hits = [f for f in sub.findings if f.rule in ("entry-points-agree", "closed-enum-rejects-nonmembers")]
+        for f in hits:
+            ctx.fail("class-hooks-keep-rejections", f.construct, f.message, f.file, f.line)
+        if not hits:
+            decided = {("cls", c.name) for c in t.attrs_classes()
+                       if any(fl.validator in ("integer", "uinteger") for fl in c.fields)} | \
+                      {("enum", e) for e in mm.enums if not mm.enum_open(e)}
+            rest = [k for k, _ in bypass if k not in decided]
+            if undecided is not None or rest:
+                raise _AE(f"{P_HOOKS}: hand-written structure hooks are registered for {[show(k) for k, _ in bypass][:4]}; "
+                          f"whether the single-field deviations are still rejected there is not decidable by this "
+                          f"analysis ({undecided or 'no integer / closed-enum verdict to fold'})")
+            ctx.ok("class-hooks-keep-rejections")
     # enum classes are real enum.Enum subclasses (E(v) raises ValueError for non-members)
     for en in mm.enums:
         c = t.classes.get(en)
@@ -100,7 +136,8 @@ def run(ctx: Ctx):  # noqa: F811
     c12._run_validators(sub)
     n = 0
     for f in sub.findings:
-        if f.rule in ("reject-out-of-range", "accept-in-range", "total-on-any-argument"):
+        # C11 only needs *an* error for an out-of-range number (which exception is C12's business)
+        if f.rule == "reject-out-of-range" and "('return'" in f.message:
             ctx.fail("int-range-enforced", f.construct, f.message, f.file, f.line)
     n = sub.rule_counts.get("reject-out-of-range", 0)
     ctx.floor("out-of-range representatives checked", n, 20)
